@@ -59,6 +59,10 @@ class Session:
         self.seen_packets_server = []
         self.seen_packets_client = []
 
+        # next expected TCP sequence number per direction (None until known)
+        self.server_next_seq = None
+        self.client_next_seq = None
+
         self.can_decrypt = False
         self.client_hello_seen = False
 
@@ -480,6 +484,8 @@ class Session:
         packet: Packet
         for packet in self.packet_buffer:
             if packet.ip_src == self.server_ip and packet.sport == self.server_port:
+                if self.client_next_seq is None and not self.client_packet_buffer and packet.tcp.flags & 0x10:
+                    self.client_next_seq = packet.ack
                 self.server_packet_buffer.append(packet)
                 self.extract_server_buf()
 
@@ -488,6 +494,8 @@ class Session:
 
                 self.server_tls_records.clear()
             else:
+                if self.server_next_seq is None and not self.server_packet_buffer and packet.tcp.flags & 0x10:
+                    self.server_next_seq = packet.ack
                 self.client_packet_buffer.append(packet)
                 self.extract_client_buf()
 
@@ -502,6 +510,10 @@ class Session:
         # TCP sequence numbers are modulo 2^32: order the segments by their signed distance to the oldest buffered one
         base = self.server_packet_buffer[0].seq
         self.server_packet_buffer.sort(key=lambda x: ((x.seq - base + 0x80000000) & 0xFFFFFFFF) - 0x80000000)
+
+        if self.server_next_seq is not None and self.server_packet_buffer[0].seq != self.server_next_seq:
+            # need more packets (the next expected segment has not been seen yet)
+            return
 
         for i in range(0, len(self.server_packet_buffer) - 1):
             if (self.server_packet_buffer[i].seq + len(self.server_packet_buffer[i].tls_data)) & 0xFFFFFFFF != \
@@ -549,6 +561,7 @@ class Session:
                 self.server_tls_records.append(tls_record)
 
                 index += record_len
+            self.server_next_seq = (self.server_packet_buffer[-1].seq + len(self.server_packet_buffer[-1].tls_data)) & 0xFFFFFFFF
             self.server_packet_buffer.clear()
 
     def extract_client_buf(self):
@@ -557,6 +570,10 @@ class Session:
         # TCP sequence numbers are modulo 2^32: order the segments by their signed distance to the oldest buffered one
         base = self.client_packet_buffer[0].seq
         self.client_packet_buffer.sort(key=lambda x: ((x.seq - base + 0x80000000) & 0xFFFFFFFF) - 0x80000000)
+
+        if self.client_next_seq is not None and self.client_packet_buffer[0].seq != self.client_next_seq:
+            # need more packets (the next expected segment has not been seen yet)
+            return
 
         for i in range(0, len(self.client_packet_buffer) - 1):
             if (self.client_packet_buffer[i].seq + len(self.client_packet_buffer[i].tls_data)) & 0xFFFFFFFF != \
@@ -604,4 +621,5 @@ class Session:
                 self.client_tls_records.append(tls_record)
 
                 index += record_len
+            self.client_next_seq = (self.client_packet_buffer[-1].seq + len(self.client_packet_buffer[-1].tls_data)) & 0xFFFFFFFF
             self.client_packet_buffer.clear()
